@@ -7,7 +7,12 @@ Open Scope N_scope.
 
 Lemma spec_step_conserved s o ob s' : conserved s -> spec_step s o ob = Some s' -> conserved s'.
 Proof.
-  intros H. destruct o as [esize align cap fc|id|id], ob as [[rid|] c len'|len'|len'|]; cbn [spec_step]; try discriminate.
+  intros H. destruct o as [esize align cap fc|esize align cap|id|id], ob as [[rid|] c len'|len'|len'|]; cbn [spec_step]; try discriminate.
+  3: { destruct ((cap <=? c) && (len' =? N.of_nat (length (pooled s)))); [|discriminate].
+       intros E; inversion E; subst; clear E.
+       unfold conserved, all in *. cbn [pooled held freed next_id].
+       rewrite nseq_succ. rewrite !ids_app. rewrite !ids_app in H. cbn [ids map b_id].
+       rewrite <- H. symmetry. apply Permutation_cons_app. reflexivity. }
   - destruct (take_id rid (pooled s)) as [[b p']|] eqn:T; [|discriminate].
     destruct ((cap <=? c) && (c =? b_cap b) && layout_match b esize align && (len' =? N.of_nat (length p'))); [|discriminate].
     intros E; inversion E; subst; clear E.
@@ -148,7 +153,11 @@ Theorem det_refines_spec m s o ob s' x :
   conserved s -> fresh_ok o ->
   step m s o = (s', x) -> out_obs_agree s' x ob = true -> spec_step s o ob = Some s'.
 Proof.
-  intros C F St Ag. destruct o as [esize align cap fc|id|id]; cbn [step] in St; cbn [fresh_ok] in F.
+  intros C F St Ag. destruct o as [esize align cap fc|esize align cap|id|id]; cbn [step] in St; cbn [fresh_ok] in F.
+  2: { unfold fresh in St. inversion St; subst; clear St.
+       destruct ob as [[rid|] c len'|len'|len'|]; cbn [out_obs_agree pooled] in Ag; try discriminate.
+       apply andb_true_iff in Ag as [A1 A2]. apply N.eqb_eq in A1, A2. subst c len'.
+       cbn [spec_step]. rewrite N.leb_refl, N.eqb_refl. reflexivity. }
   - assert (Hfresh : forall s'' x', fresh s esize align fc = (s'', x') -> s'' = s' -> x' = x ->
                      spec_step s (OAlloc esize align cap fc) ob = Some s').
     { unfold fresh. intros s'' x' E <- <-. inversion E; subst; clear E.
